@@ -6,3 +6,16 @@ register_meta('C15', level='proof',
               assumptions=['Decimal amounts are modelled as reals (exact when the product has <= 28 significant digits)',
                            'str(Decimal) is an uninterpreted injective function',
                            'regex-based parsing of TIMEX strings (TimexRegex) is outside these contracts: functions are verified on Timex objects'])
+
+for _p, _e in {
+    'C06': 'contracts on the date glue (regex groups -> TIMEX/value); regex layer assumed',
+    'C07': 'contracts on the time glue (match_to_time, to_pm, merge_date_and_time, formatters)',
+    'C08': 'contracts on weekday / N-units-ago calendar arithmetic',
+    'C09': 'contracts on year-less date candidates (generate_dates, match_to_date)',
+    'C10': 'contracts on span / period-count arithmetic',
+    'C11': 'contracts on the validity and formatting guard layer',
+}.items():
+    register_meta(_p, level='proof', explanation=_e,
+                  assumptions=['regex layer (which strings match, which group gets which substring) is assumed: R1 match geometry only',
+                               'culture tables abstracted to declared ranges (environment values)',
+                               'datedelta (missing package) month/year arithmetic not claimed'])
